@@ -11,6 +11,7 @@
    B <b> <hexbytes>     -> encodeBytes b (decodeBytes b bytes) | `none`
    I <ch> <n> v1 .. v(n*ch) -> interleave of the n×ch array given row by row
    X <ch> v1 v2 ...     -> deinterleave: rows separated by `|` (`-` = no rows) | `none`
+   A <ha> <hb>          -> `<bits of rn53 (a / b)> <bits of rn53 (a * b)>` for two doubles (rounding model alone)
    anything else        -> `bad-op` -/
 import Earverif.Model.Pcm
 import Earverif.Driver.Util
@@ -114,6 +115,10 @@ def answer (line : String) : String :=
     | some ch, some vs => match deinterleave ch vs with
       | some rows => if rows.isEmpty then "-" else String.intercalate " | " (rows.map showInts)
       | none => "none"
+    | _, _ => "bad-op"
+  | ["A", ha, hb] =>
+    match hexNat? ha >>= ofBits, hexNat? hb >>= ofBits with
+    | some a, some b => if b = 0 then "bad-op" else s!"{showBits (rn53 (a / b))} {showBits (rn53 (a * b))}"
     | _, _ => "bad-op"
   | _ => "bad-op"
 
